@@ -179,7 +179,7 @@ where StandardNormal: Distribution<F>, Exp1: Distribution<F>, Open01: Distributi
             let mut sum = F::zero(); for &x in &v { sum = sum + x; }
             let ol = |x: F| if x.is_nan() { vec![0, 0, 0] } else { ord_limbs(x) };
             let mut ev = json!({"op": "dir", "ft": F::NAME, "res": "Ok", "n": n, "out": v.iter().map(|&x| ol(x)).collect::<Vec<_>>(), "nonan": nonan,
-                "sum": ol(sum), "api_same": api_same, "w": r1.words(), "wired": false, "stream": tag, "alpha": alpha.iter().map(|x| format!("{:e}", x)).collect::<Vec<_>>()});
+                "sum": ol(sum), "outcls": v.iter().map(|&x| class_of(x)).collect::<Vec<_>>(), "api_same": api_same, "w": r1.words(), "wired": false, "stream": tag, "alpha": alpha.iter().map(|x| format!("{:e}", x)).collect::<Vec<_>>()});
             if let Some(a64) = dyadic {
                 // the two documented constructions, built from the crate's public Beta / Gamma on clones of the stream
                 let mut rsb = rng0.clone();
